@@ -254,3 +254,6 @@ pub enum MetricType {
 pub struct MetricSettings {
     push_interval: u64,
 }
+
+#[cfg(feature = "verif-hooks")]
+pub mod verif;
